@@ -56,24 +56,25 @@ def occurrences(term, name):
 
 
 def make_weight(E, h, kind, N, K, dtype):
-    if kind in ("qint8-axis0", "qfloat8-axis0"):
-        h.qname = "qint8" if kind.startswith("qint8") else "qfloat8_e4m3fn"
+    if kind in ("qint8-axis0", "qfloat8-axis0", "qfloat8_e5m2-axis0"):
+        h.qname = "qint8" if kind.startswith("qint8") else ("qfloat8_e5m2" if "e5m2" in kind else "qfloat8_e4m3fn")
         h.qt = E.load_module(OC.QTYPE).env.lookup(h.qname)
         return h.q([N, K], name="W", axis=0)
     if kind == "qint8-per-tensor":
         h.qname = "qint8"
         h.qt = E.load_module(OC.QTYPE).env.lookup("qint8")
         return h.q([N, K], name="W", axis=None)
-    if kind == "qint4-axis0":
+    if kind in ("qint4-axis0", "qint2-axis0"):
         cls = E.get(f"{OC.QBITS}::QBitsTensor")
-        qt = E.load_module(OC.QTYPE).env.lookup("qint4")
+        qt = E.load_module(OC.QTYPE).env.lookup(kind[:5])
+        top = 16 if kind.startswith("qint4") else 4
         data = new_input(E, "W_c", "uint8", [N, K])
         cid, cinb = idx_vars("cq", [N, K])
-        E.assume(z3.ForAll(cid, z3.Implies(z3.And(*cinb), z3.And(data.elem(cid) >= 0, data.elem(cid) < 16))))
+        E.assume(z3.ForAll(cid, z3.Implies(z3.And(*cinb), z3.And(data.elem(cid) >= 0, data.elem(cid) < top))))
         sc = new_input(E, "W_s", dtype, [N, 1])
         zp = new_input(E, "W_z", "int8", [N, 1])
         zid, zinb = idx_vars("zq", [N, 1])
-        E.assume(z3.ForAll(zid, z3.Implies(z3.And(*zinb), z3.And(zp.elem(zid) >= 0, zp.elem(zid) < 16))))  # zero-points lie on the grid (C02)
+        E.assume(z3.ForAll(zid, z3.Implies(z3.And(*zinb), z3.And(zp.elem(zid) >= 0, zp.elem(zid) < top))))  # zero-points lie on the grid (C02)
         return E.call(cls, [qt, 0, None, (N, K), contiguous_strides([N, K]), data, sc, zp], {})
     raise ValueError(kind)
 
@@ -81,19 +82,21 @@ def make_weight(E, h, kind, N, K, dtype):
 def make_act(E, h, kind, shape, dtype):
     if kind == "float":
         return new_input(E, "X", dtype, shape)
-    h2 = OC.H(E, "qint8" if kind == "qint8" else "qfloat8_e4m3fn", None, dtype)
+    h2 = OC.H(E, {"qint8": "qint8", "qfloat8": "qfloat8_e4m3fn", "qfloat8_e5m2": "qfloat8_e5m2"}[kind], None, dtype)
     return h2.q(shape, name="X", axis=None)
 
 
 def linear_cases(run):
     quick = run.tier == "quick"
-    for wkind in ("qint8-axis0", "qint8-per-tensor", "qfloat8-axis0", "qint4-axis0"):
-        for akind in ("float", "qint8", "qfloat8"):
+    for wkind in ("qint8-axis0", "qint8-per-tensor", "qfloat8-axis0", "qint4-axis0", "qint2-axis0", "qfloat8_e5m2-axis0"):
+        for akind in ("float", "qint8", "qfloat8", "qfloat8_e5m2"):
             for dtype in ("float32", "float16", "bfloat16"):
                 for brank in (1, 2, 3):   # (a 1-D input returns shape (1, out) instead of (out,): outside the property's batch ranks 1..3; remark in DESIGN.md)
                     for bias in (False, True):
                         for device in ("cpu", "cuda", "mps"):
                             if quick:
+                                if (wkind in ("qint2-axis0", "qfloat8_e5m2-axis0") or akind == "qfloat8_e5m2") and not (dtype == "float16" and brank == 2 and not bias and device == "cpu"):
+                                    continue
                                 if device != "cpu" and not (dtype == "float16" and brank in (1, 2) and wkind in ("qint8-axis0", "qfloat8-axis0")):
                                     continue
                                 if brank == 3 and not (dtype == "float32" and wkind == "qint8-axis0"):
@@ -164,7 +167,7 @@ def run_linear(run):
             # reference operands (dequantized element terms)
             R = z3.RealSort()
             def wdeq(jj, kk):
-                if wkind == "qint4-axis0":
+                if wkind in ("qint4-axis0", "qint2-axis0"):
                     c = z3.Function("W_c", z3.IntSort(), z3.IntSort(), z3.IntSort())(jj, kk)
                     z = z3.Function("W_z", z3.IntSort(), z3.IntSort(), z3.IntSort())(jj, 0)
                     s = z3.Function("W_s", z3.IntSort(), z3.IntSort(), R)(jj, 0)
@@ -192,7 +195,7 @@ def run_linear(run):
             # (acc) the un-scaled products of raw codes must be accumulated in a dtype that cannot overflow first
             fam = "float8-weights" if wkind.startswith("qfloat8") else "int-weights"
             needs32 = (dtype != "float32")
-            okacc = (not needs32) or S.dtype in ("float32", "int32", "float64") or wkind == "qint4-axis0"
+            okacc = (not needs32) or S.dtype in ("float32", "int32", "float64") or wkind in ("qint4-axis0", "qint2-axis0")
             run.add(f"C07/{fam}/accumulates-raw-codes-in-32-bit[{tag}]/path{pi}", r.hyps, z3.BoolVal(okacc), "property", inst,
                     {"accumulation_dtype": S.dtype}, replay=rp)
             # (lin) summand relation for a symbolic k: g(k) == c * f(k), c independent of k
@@ -206,7 +209,7 @@ def run_linear(run):
             fk = S.summand(k)
             gk = adeq(bi, k) * wdeq(j, k)
             facts2 = E.drain()
-            if wkind == "qint4-axis0":
+            if wkind in ("qint4-axis0", "qint2-axis0"):
                 c = z3.RealVal(1)
             else:
                 sw = z3.Function("W_s", z3.IntSort(), z3.IntSort(), R)(j, 0) if wkind.endswith("axis0") else z3.Const("W_s", R)
@@ -407,7 +410,8 @@ def replay(model, seed, inst):
 
     torch.manual_seed(seed)
     dt = {"float32": torch.float32, "float16": torch.float16, "bfloat16": torch.bfloat16}[inst["dtype"]]
-    wq = {"qint8-axis0": "qint8", "qint8-per-tensor": "qint8", "qfloat8-axis0": "qfloat8_e4m3fn", "qint4-axis0": "qint4"}[inst["weight"]]
+    wq = {"qint8-axis0": "qint8", "qint8-per-tensor": "qint8", "qfloat8-axis0": "qfloat8_e4m3fn", "qint4-axis0": "qint4", "qint2-axis0": "qint2",
+          "qfloat8_e5m2-axis0": "qfloat8_e5m2"}[inst["weight"]]
     # (bfloat16 x int8 goes through torch._weight_int8pack_mm, which crashes in this torch build unless K % 16 == 0)
     for (rows, K, N) in ((3, 16, 8), (24, 32, 16), (17, 20, 5) if dt != torch.bfloat16 else (17, 48, 5), (32, 64, 8), (4, 512, 8)):
         for mag in (1.0, 4.0):
@@ -421,7 +425,7 @@ def replay(model, seed, inst):
             if inst["activation"] == "float":
                 qx, xd = x, x
             else:
-                aq = qtypes["qint8" if inst["activation"] == "qint8" else "qfloat8_e4m3fn"]
+                aq = qtypes[{"qint8": "qint8", "qfloat8": "qfloat8_e4m3fn", "qfloat8_e5m2": "qfloat8_e5m2"}[inst["activation"]]]
                 qx = quantize_activation(x, aq, absmax_scale(x, aq))
                 xd = qx.dequantize()
             try:
